@@ -60,6 +60,10 @@ def wireOf (r : Req) (i : Nat) (b : String) : Option Wire :=
     | "rej4" => some (.http 200 (.der 4 absentTok false))
     | "rej5" => some (.http 200 (.der 5 absentTok false))
     | "rejtok" => some (.http 200 (.der 2 v false))
+    | "rejtok3" => some (.http 200 (.der 3 v false))
+    | "rejtok4" => some (.http 200 (.der 4 v false))
+    | "rejtok5" => some (.http 200 (.der 5 v false))
+    | "rejtok6" => some (.http 200 (.der 6 v false))
     | "badsig" => some (ok200 { v with sigOK := false })
     | "rogue" => some (ok200 { v with tsa := 2 })
     | "trailing" => some (.http 200 (.der 0 v true))
